@@ -133,13 +133,56 @@ def same(a, b, tol=0.0):
     return d
 
 
+D21 = "D21:protonate-all-incomplete-planar-centre"
+
+
+def d21_only(a, b):
+    """a = default run, b = --protonate-all run of one text.  True iff the hydrogens the default run built differ between the two runs
+    only on atoms that were protonated by the one-neighbour trigonal rule next to an atom whose memoised steric number differs between
+    the runs (a planar centre that lost a substituent: alone it is never protonated and keeps the steric number computed with zero
+    protons to add; under --protonate-all it is protonated first) - the recorded finding D21"""
+    ok_any = False
+    for cname in a.mol.conformation_names:
+        ca, cb = a.mol.conformations[cname], b.mol.conformations.get(cname)
+        if cb is None:
+            return False
+        key = lambda at: (at.chain_id, at.res_num, at.icode, at.name)
+        hb = {key(at): sorted((h.x, h.y, h.z) for h in at.bonded_atoms if h.element == "H") for at in cb.atoms if at.element != "H"}
+        sb = {key(at): at.steric_number for at in cb.atoms if at.element != "H"}
+        for at in ca.atoms:
+            if at.element == "H":
+                continue
+            ha = sorted((h.x, h.y, h.z) for h in at.bonded_atoms if h.element == "H")
+            if not ha:
+                continue
+            other = hb.get(key(at), [])
+            same_h = len(ha) == len(other) and all(abs(p - q) <= 1e-9 for x, y in zip(ha, other) for p, q in zip(x, y))
+            if same_h:
+                continue
+            heavy = [n for n in at.bonded_atoms if n.element != "H"]
+            if len(heavy) == 1 and at.steric_number == 3 and sb.get(key(heavy[0])) != heavy[0].steric_number:
+                ok_any = True
+            else:
+                return False
+    return ok_any
+
+
 def run(ctx):
     rnd = ctx.rng
     _calls[0] = 0
     from propka.parameters import Parameters
     from propka.input import read_parameter_file
     ignore = read_parameter_file("propka.cfg", Parameters()).ignore_residues
-    inputs = [(n, t) for n, t in pdbgen.test_files(["1HPX", "sample-issue-140", "conf-alt-AB"] if ctx.quick() else ["1HPX", "3SGB", "4DFR", "sample-issue-140", "conf-alt-AB", "conf-model-mutant"])]
+    import json
+    inputs = []
+    # witnesses of listed findings run first, so that a listed finding is reported on every run while it persists
+    for f in sorted(common.CORPUS.glob("C07-*.json")):
+        inputs.append(("gen-corpus:" + f.name, json.loads(f.read_text())["replay"]["pdb"]))
+    inputs += [(n, t) for n, t in pdbgen.test_files(["1HPX", "sample-issue-140", "conf-alt-AB"] if ctx.quick() else ["1HPX", "3SGB", "4DFR", "sample-issue-140", "conf-alt-AB", "conf-model-mutant"])]
+    # incomplete residues (the hetero atoms at the end of a side chain are gone): --protonate-all must still change nothing
+    for i in range(2 if ctx.quick() else 30):
+        lines, ids = pdbgen.multichain(rnd, nchains=1)
+        inputs.append(("gen-incomplete%d" % i, pdbgen.text(pdbgen.truncate_sidechains(rnd, lines, rnd.randint(1, 3), types=rnd.choice([None, ("ARG", "ASN", "GLN"), ("HIS", "ARG")])))))
     for i in range(6 if ctx.quick() else 60):
         lines, ids = pdbgen.multichain(rnd, nchains=rnd.randint(1, 2), separation=25.0)
         inputs.append(("gen%d" % i, pdbgen.text(lines)))
@@ -180,7 +223,9 @@ def run(ctx):
                 for c in a.confs:
                     d += observe.compare_groups(a.confs[c], b.confs[c], tol=1e-9, dets=True)[:2]
                 ctx.case(key=(name, "protonate-all"))
-                if d:
+                if d and d21_only(a, b):
+                    ctx.violate(D21, "%s: --protonate-all changes results: %s" % (name, "; ".join(d[:2])), dict(pdb=text, diffs=d[:3]))
+                elif d:
                     pbad.append((name, d[:3], text))
         # feeding the program's own hydrogens back with -k reproduces the results (amino-acid structures, one conformation)
         b0 = base[()]
@@ -203,6 +248,53 @@ def run(ctx):
                         d.append("%s pKa %r vs %r after the round trip" % (x["label"], x["pka"], y["pka"]))
                 if d:
                     kbad.append((name, d[:3], pdbgen.text(hl), text))
+    # the hydrogens of a --protonate-all run fed back with -k: every atom is saturated, so the -k run builds nothing and must report
+    # what the --protonate-all run reported.  Directed inputs: a donor nitrogen placed 2.6-3.0 A from a hydroxyl oxygen, kept when the
+    # program's own hydrogens on the two residues come closer than 1.5 A to each other (two hydrogens are never bonded, however close)
+    pa_inputs = [(n, t) for n, t in inputs if n.startswith("gen")][:(2 if ctx.quick() else 10)]
+    found = 0
+    for k in range(40 if ctx.quick() else 400):
+        if found >= (2 if ctx.quick() else 10):
+            break
+        pc = pdbgen.polar_contact(rnd, first=("TYR", "OH"), partner=rnd.choice([("LYS", "NZ"), ("ARG", "NH1"), ("ARG", "NH2")]))
+        if pc is None:
+            continue
+        t = pdbgen.text(pc)
+        op = observe.run(t, ["--protonate-all"], want_text=False)
+        if op.error:
+            continue
+        hs = [(a.x, a.y, a.z, a.bonded_atoms[0].res_num, a.bonded_atoms[0].chain_id) for a in op.mol.conformations[op.mol.conformation_names[0]].atoms
+              if a.element == "H" and a.bonded_atoms and a.bonded_atoms[0].name in ("OH", "NZ", "NH1", "NH2")]
+        close = any(x[3:] != y[3:] and (x[0] - y[0]) ** 2 + (x[1] - y[1]) ** 2 + (x[2] - y[2]) ** 2 < 2.25 for i, x in enumerate(hs) for y in hs[i + 1:])
+        if close:
+            found += 1
+            pa_inputs.append(("h-h-contact%d" % k, t))
+            ctx.count("keep-protons round trips with two hydrogens closer than 1.5 A")
+    for name, text in pa_inputs:
+        op = observe.run(text, ["--protonate-all"], want_text=False)
+        if op.error or len(op.mol.conformation_names) != 1 or not all(l.startswith("ATOM") or not pdbgen.is_atom(l) for l in pdbgen.lines_of(text)):
+            continue
+        hl = c04.dump_with_h(op, text)
+        o = observe.run(pdbgen.text(hl), ["-k"], want_text=False)
+        if name.startswith("h-h-contact"):
+            # these texts also go through the program-level correspondence (the model never bonds two hydrogens)
+            ctx.program_extra = getattr(ctx, "program_extra", []) + [(name + " -k", pdbgen.text(hl), ("-k",))]
+        ctx.case(key=(name, "keep-protons round trip of the --protonate-all hydrogens"))
+        ctx.count("keep-protons round trips (hydrogens of a --protonate-all run)")
+        if o.error:
+            kbad.append((name, ["error %r" % (o.error,)], pdbgen.text(hl), text))
+            continue
+        ra = {(g["key"], g["type"]): g for g in op.confs[op.mol.conformation_names[0]]}
+        rb = {(g["key"], g["type"]): g for g in o.confs[o.mol.conformation_names[0]]}
+        d = []
+        for kk, x in ra.items():
+            y = rb.get(kk)
+            if y is None:
+                d.append("%s missing after the round trip" % x["label"])
+            elif abs(x["pka"] - y["pka"]) > 1e-9:
+                d.append("%s pKa %r vs %r after the round trip of the --protonate-all hydrogens" % (x["label"], x["pka"], y["pka"]))
+        if d:
+            kbad.append((name, d[:3], pdbgen.text(hl), text))
     for b in ebad[:3]:
         ctx.violate("unused-content:" + b[1].replace(" ", "-"), "%s edited (%s) %r: %s" % (b[0], b[1], b[2], "; ".join(b[3])), dict(pdb=b[4], original=b[5], args=b[2], diffs=b[3]))
     ctx.oblige("spec: junk records, ignorable residues, column noise and input hydrogens change no result and not the .pka text", not ebad, str([(b[0], b[1], b[2], b[3][:1]) for b in ebad[:2]]))
